@@ -293,6 +293,10 @@ Proof. intros a b Ha Hb. unfold gen_cmtf_err. rewrite <- (sqrt_sqrt a Ha) at 2. 
 Proof. intros n e He. unfold gen_tr_err, rel_err. now rewrite Rabs_pos_eq. Qed.""",
 }
 
+ITEM_OF = {"gen_cp_err": "parafac error formula", "gen_nn_err": "non_negative_parafac_hals error formula", "gen_cp_accept": "parafac line-search acceptance",
+           "gen_tk_err": "partial_tucker error formula", "gen_p2_accept": "parafac2 line-search acceptance", "gen_cmtf_err": "CMTF error formula",
+           "gen_tr_err": "tensor_ring_als error formula"}
+
 HEADER = """From Coq Require Import Reals List Arith Lia Lra.
 From TLV Require Import Base.Shape Base.PyList Base.Tensor Base.Ops Base.RSum Model.Descent Model.DescentReport
   Proofs.DescentProofs Proofs.DescentProofsOrth Proofs.DescentProofsSweeps Proofs.DescentProofsReport Proofs.DescentProofsStatic.
